@@ -37,6 +37,9 @@ def alphabet(name, ABS):
             # members whose method has no decoder (-lh2-, -lh3- are genuine but unsupported): nothing is decoded, nothing may be touched
             entry("f", b"", b"f", b"zzzzzz", method=b"-lh2-"),
             entry("f", b"d/", b"f", b"yyyyyy", method=b"-lh3-", level=1),
+            # two leading separators in front of an absolute location: in a level-0 name, in a level-2 path header
+            entry("f", b"", b"", b"evil13", level=0, raw_name=b"\\\\" + rel_abs.replace(b"/", b"\\") + b"\\f"),
+            entry("f", b"", b"f", b"evil14", raw_path=b"\xff\xff" + rel_abs.replace(b"/", b"\xff") + b"\xff"),
             # the name supplied twice, a longer harmless one first: level-1 base name + 0x01 header; two 0x01 headers
             lzhfmt.build_header(1, b"-lh0-", packed=6, size=6, crc=lzhfmt.crc16(b"evil11"), name=b"aaaaaaaaaaaa", time=lzhfmt.dos_time(2010, 1, 1, 0, 0, 0),
                                 exts=[(1, b"../f")]) + b"evil11",
@@ -57,7 +60,7 @@ def alphabet(name, ABS):
     ]
 
 
-NAMES = {"A1": ["f", "d/f", "../f", "/ABS/f", "d/../../f", "a\\..\\..\\f(L0)", "..<FF>outside<FF>+f", "w/g", "d/(0555)", "s->d", "w->../outside", "abcd->ABS", "..<NUL>+f", "a<NUL>/../f(L1)", "..\\f(L0)", "..\\outside\\f(L1)", "ABS\\f(L1)", "dir ..<NUL>", "dir /ABS/sub/", "m->d/../../outside", "m/g", "n->./..", "f(-lh2-)", "d/f(-lh3-)", "aaaa+../f(L1 twice)", "aaaa+/ABS/f(twice)"],
+NAMES = {"A1": ["f", "d/f", "../f", "/ABS/f", "d/../../f", "a\\..\\..\\f(L0)", "..<FF>outside<FF>+f", "w/g", "d/(0555)", "s->d", "w->../outside", "abcd->ABS", "..<NUL>+f", "a<NUL>/../f(L1)", "..\\f(L0)", "..\\outside\\f(L1)", "ABS\\f(L1)", "dir ..<NUL>", "dir /ABS/sub/", "m->d/../../outside", "m/g", "n->./..", "f(-lh2-)", "d/f(-lh3-)", "\\\\ABS\\f(L0)", "<FF><FF>ABS<FF>+f", "aaaa+../f(L1 twice)", "aaaa+/ABS/f(twice)"],
          "A2": ["q/", "f", "p/g", "p->q", "p->abcd", "p->w", "abcd->ABS", "w->../outside", "p/z->ABS/x", "abcd/k"]}
 
 
